@@ -200,9 +200,13 @@ class SInt(Sym):
     def _neg(a): return SInt(-a.t)
     def _floordiv(a, b):
         ctx().defined.append(b.t != 0)
-        return SInt(_floordiv(a.t, b.t))
+        q = _linear_quotient(a.t, b.t)
+        return SInt(q if q is not None else _floordiv(a.t, b.t))
     def _mod(a, b):
         ctx().defined.append(b.t != 0)
+        q = _linear_quotient(a.t, b.t)
+        if q is not None:
+            return SInt(z3.simplify(a.t - _times(q, b.t)))
         return SInt(a.t - b.t * _floordiv(a.t, b.t))
     def _pow(a, b):
         bt = z3.simplify(b.t)
@@ -217,6 +221,30 @@ class SInt(Sym):
     def __bool__(s): return decide(s.t != 0)
     def __repr__(s): return f'SInt({z3.simplify(s.t)})'
     def __hash__(self): return id(self)
+
+QRANGE = 3
+def _linear_quotient(a, b):
+    '''floor(a/b) for a SYMBOLIC positive divisor b as a linear if-then-else ladder, when the current path condition
+    implies b > 0 and -QRANGE*b <= a < (QRANGE+1)*b (checked with the explorer's solver: a derived lemma, not an assumption).
+    Returns None when b is a constant (z3 handles that natively) or the bound cannot be established.'''
+    if z3.is_int_value(z3.simplify(b)): return None
+    c = ctx()
+    s = c.solver
+    if s is None: return None
+    s.push(); s.add(*c.pc, *c.side, z3.Not(z3.And(b > 0, a >= -QRANGE * b, a < (QRANGE + 1) * b)))
+    r = timed_check(s); s.pop()
+    if r != z3.unsat: return None
+    q = z3.IntVal(QRANGE)
+    for k in range(QRANGE - 1, -QRANGE - 1, -1):
+        q = z3.If(a < (k + 1) * b, z3.IntVal(k), q)
+    return q
+def _times(q, b):
+    '''q*b for the ladder q (keeps the term linear)'''
+    if z3.is_int_value(q): return q.as_long() * b
+    if z3.is_app_of(q, z3.Z3_OP_ITE):
+        c, x, y = q.children()
+        return z3.If(c, _times(x, b), _times(y, b))
+    return q * b
 
 def _floordiv(a, b):
     # z3 int div is floor for positive divisor (remainder in [0,|b|)); for b<0 use (-a) div (-b)
